@@ -468,3 +468,66 @@ func init() {
 		o.MinSites(3)
 	})
 }
+
+// subsetTestsRule: "did the previous notification already list these alerts" is a subset test of this flush's
+// hashes against the hashes of the logged entry.  IsFiringSubset looks at the entry's firing hashes, IsResolvedSubset
+// at its resolved ones, every hash of the entry takes part, and isSubset answers false exactly when some element of
+// the asked set is missing.
+func subsetTestsRule(o *Ob) {
+	e := o.E
+	for _, s := range []struct{ fn, field string }{{"IsFiringSubset", "FiringAlerts"}, {"IsResolvedSubset", "ResolvedAlerts"}} {
+		fn := o.Fn("(*am/nflog/nflogpb.Entry)." + s.fn)
+		c := o.One(e.Calls(fn, "am/nflog/nflogpb.isSubset"), "delegate|"+s.fn, s.fn+" must decide through isSubset", fn)
+		o.Site(c, s.fn)
+		set := e.Arg(c, 0)
+		o.Check(e.Arg(c, 1) == "p0", "asked|"+s.fn, "the set asked about must be the caller's, is "+e.Arg(c, 1), c)
+		for _, ret := range (&Walk{Fn: fn}).FromEntry().Returns() {
+			o.Check(e.X(fn, ret.Results[0]) == e.X(fn, c.(*ssa.Call)), "answer|"+s.fn, s.fn+" must return the subset test's answer", ret)
+		}
+		n := 0
+		for _, in := range AllInstrs(fn) {
+			m, ok := in.(*ssa.MapUpdate)
+			if !ok || e.X(fn, m.Map) != set {
+				continue
+			}
+			n++
+			o.Check(e.X(fn, m.Key) == "recv."+s.field+"[i]", "members|"+s.fn, s.fn+" must compare against the entry's "+s.field+", uses "+e.X(fn, m.Key), m)
+			if l := e.LoopOf(m); o.Check(l != nil, "members-loop|"+s.fn, "the entry's hashes must be collected in a loop", m) {
+				coll, _ := e.RangeOver(l)
+				o.Check(coll == "recv."+s.field && len(e.EarlyExits(l)) == 0 && !loopBackWithout(o, l, IsInstr(m), nil), "members-all|"+s.fn, "a hash of the entry can be left out of the comparison", m)
+				o.Check(InstrDominates(m, c) || blockReaches(m.Block(), c.Block()), "members-order|"+s.fn, "the hashes are collected after the test", m)
+			}
+		}
+		o.Check(n == 1, "members-site|"+s.fn, s.fn+" must collect the entry's "+s.field+" once", c)
+	}
+	is := o.Fn("am/nflog/nflogpb.isSubset")
+	o.Site(fnFirst(is), "isSubset")
+	ls := e.Loops(is)
+	if o.Check(len(ls) == 1, "subset-loop", "isSubset must be one loop over the asked set", fnFirst(is)) {
+		coll, _ := e.RangeOver(ls[0])
+		o.Check(coll == "p1", "subset-range", "isSubset must range over the asked set, ranges over "+coll, fnFirst(is))
+	}
+	has := L("p0[next(range(p1))#1]#1", true)
+	more := L("next(range(p1))#0", true)
+	// a larger set is never a subset: a size test in front of the loop may answer false early (pigeonhole), so the
+	// "true" rows are stated for asked sets that are not larger
+	larger := LRe(`\(len\(p0\) < len\(p1\)\)`, true)
+	o.Table(is, "subset", []Row{
+		{Name: "an element is missing", Assume: A(more, has.Neg()), Ret: [][]string{Vals("false")}},
+		{Name: "every element found", Assume: A(has), Opt: A(larger.Neg()), Ret: [][]string{Vals("true")}},
+		{Name: "empty asked set", Assume: A(more.Neg()), Opt: A(larger.Neg()), Ret: [][]string{Vals("true")}},
+	})
+	// the only early answer besides a missing element is that size test
+	for _, ret := range (&Walk{Fn: is, Cut: e.CutContradicting(larger.Neg())}).FromEntry().Returns() {
+		if e.X(is, ret.Results[0]) == "false" {
+			o.Guarded(ret, "subset-false", "answering 'not a subset'", has.Neg())
+		}
+	}
+}
+
+func init() {
+	desc := "IsFiringSubset / IsResolvedSubset compare against all firing / resolved hashes of the logged entry; isSubset is false exactly when an asked hash is missing"
+	reg("C04", "C04.14", "T6,T8", "'already notified' is a subset test: "+desc, func(o *Ob) { subsetTestsRule(o); o.MinSites(3) })
+	reg("C05", "C05.13", "T6,T8", "'already reported resolved' is a subset test: "+desc, func(o *Ob) { subsetTestsRule(o); o.MinSites(3) })
+	reg("C08", "C08.13", "T6,T8", "'another instance already sent this' is a subset test: "+desc, func(o *Ob) { subsetTestsRule(o); o.MinSites(3) })
+}
